@@ -21,3 +21,10 @@ package zkmul
 //@   nopanic[C10]
 //@   inline
 //@   requires hash != nil && hash.h != nil && group != nil && public.X != nil && public.Y != nil && public.C != nil && pkok(public.Prover) && pkvals(public.Prover) && pkbig(public.Prover) && commitment != nil
+//@   use absorb
+//@   ensures[C10] result1 == nil ==> absorbed(hstate(hash), habs(iface(public.X)))
+//@   ensures[C10] result1 == nil ==> absorbed(hstate(hash), habs(iface(public.Y)))
+//@   ensures[C10] result1 == nil ==> absorbed(hstate(hash), habs(iface(public.C)))
+//@   ensures[C10] result1 == nil ==> absorbed(hstate(hash), habs(iface(public.Prover)))
+//@   ensures[C10] result1 == nil ==> absorbed(hstate(hash), habs(iface(commitment.A)))
+//@   ensures[C10] result1 == nil ==> absorbed(hstate(hash), habs(iface(commitment.B)))
